@@ -702,6 +702,51 @@ def rule_r15(ctx):
         raise AnalysisBroken("only %d posix accept service loops found" % n)
 
 
+# ---------------------------------------------------------------------------
+# R17: a failed negotiation settles the connect (accept) that waits at the endpoint
+
+
+def rule_r17(ctx):
+    r = ctx.rule("C14.R17", "T2", "a failed negotiation settles the operation that waits at the endpoint: in the SP negotiation callbacks "
+                 "of the stream transports (tcp, ipc, socket), once the error path has found a connect / accept parked on the "
+                 "endpoint (x = ep->useraio, x != NULL) every path to the function's exit completes x -- no further condition "
+                 "stands between finding it and failing it. A dial whose handshake fails otherwise never completes: the dialer's "
+                 "connect callback does not run, so nothing schedules the redial, and a blocking nng_dial hangs", floor=3)
+    prog = ctx.prog
+    n = 0
+    for name, file in (("tcptran_pipe_nego_cb", "transport/tcp/tcp.c"), ("ipc_pipe_nego_cb", "transport/ipc/ipc.c"),
+                       ("sfd_tran_pipe_nego_cb", "transport/socket/sockfd.c")):
+        f = prog.need(name, file)
+        found = 0
+        for b in f.blocks.values():
+            c = f.cond(b.id) if b.term and len(b.succs) == 2 else None
+            if c is None:
+                continue
+            asg = [m for m in walk(c) if m.get("k") == "asg" and m["lhs"].get("k") == "var" and m["rhs"].get("k") == "mem" and
+                   "aio" in (m["rhs"].get("t") or "")]
+            if not asg:
+                continue
+            v = asg[0]["lhs"]["n"]
+            nz = G.nz_edges(f, lambda x, v=v: (x.get("k") == "var" and x["n"] == v) or (x.get("k") == "asg" and x["lhs"].get("k") == "var" and x["lhs"]["n"] == v))
+            if b.id not in nz:
+                continue
+            found += 1
+            n += 1
+            fin = {(k.b, k.i) for k in f.calls(("nni_aio_finish_error", "nni_aio_finish", "nni_aio_finish_sync")) if k.node["args"] and
+                   f.expand(k.node["args"][0]).get("k") == "var" and f.expand(k.node["args"][0])["n"] == v}
+            start = (b.succs[nz[b.id]], 0)
+            off = G.must_pass(f, start, fin) if fin else start
+            if off is None:
+                r.ob(f, "%s found waiting on the error path is failed on every path" % v)
+            else:
+                ctx.fail(r, f, "waiting operation found but not completed", f.line_of(b.id, max(len(b.elems) - 1, 0)),
+                         "%s loads the operation parked on the endpoint into %s on its error path and, having found one, can still "
+                         "reach the end of the function without completing it (a further condition guards the completion): the "
+                         "connect that waits for this negotiation is never told that it failed" % (name, v))
+        if not found:
+            raise AnalysisBroken("%s: the error path no longer looks for the operation parked on the endpoint" % name)
+
+
 def run(ctx):
     ctx.guard(rule_r1)
     ctx.guard(rule_r2)
@@ -719,6 +764,7 @@ def run(ctx):
     ctx.guard(rule_r13)
     ctx.guard(rule_r14)
     ctx.guard(rule_r15)
+    ctx.guard(rule_r17)
     from . import c02
     ctx.guard(c02.rule_s4)           # connection requests keep going out: the transmit latch is released by every completion
     for rr in ctx.rules:
